@@ -161,6 +161,9 @@ def judge(ctx, case):
             blob = indxref.encode(items, common, iw=iw, rw=rw, dims=(case["arity"] if n else 0))
             out, lcommon, dt, info2 = indx.load_bytes(blob)
             ctx.count("foreign_files_loaded")
+            if indx.LATER_CHANGE[0]:
+                ctx.violation("foreign-earlier-result-changed-by-a-later-load:%s,iw=%d,rw=%d" % (feat, iw, rw), indx.LATER_CHANGE[0], case)
+                return
             ctx.count("foreign:rw=%d" % rw)
             if iw > iw0:
                 ctx.count("foreign:iw_wider")
